@@ -3,6 +3,7 @@
 -/
 import ICS.Model.Epoch
 import ICS.Lemmas.Cap
+import ICS.Props.C04
 namespace ICS.Props.C02
 open ICS ICS.Epoch ICS.Shaping
 
@@ -21,5 +22,142 @@ theorem eligible_iff (inp : Input) (optin : List Nat) (minP v : Nat) :
       v ∈ candidates inp ∧ canValidate inp optin minP v = true ∧ fulfillsMinStake inp v = true := by
   unfold eligible
   simp [List.mem_filter, Bool.and_eq_true]
+
+/-- **Active set.**  If staking returns the bonded validators in non-increasing voting power (its
+    power-index order, A-STK-SORT), then for a consumer that does not allow inactive validators the
+    candidates are exactly the provider's own active set: the first M of that list.
+    (This is the statement that was false before fix 238ecde, where the list was re-sorted by tokens.) -/
+theorem candidates_are_active_set (inp : Input) (hin : inp.ps.inactive = false)
+    (hsorted : inp.bonded.Pairwise (fun a b => lastPower inp.stk a ≥ lastPower inp.stk b)) :
+    candidates inp = inp.bonded.take inp.m := by
+  unfold candidates
+  simp only [hin, Bool.false_eq_true, if_false]
+  rw [isort_of_pairwise]
+  exact hsorted.imp (by intro a b h; simpa using h)
+
+/-- with inactive validators allowed, all bonded validators are candidates -/
+theorem candidates_all_when_inactive_allowed (inp : Input) (hin : inp.ps.inactive = true) :
+    (candidates inp).Perm inp.bonded := by
+  unfold candidates
+  simp only [hin, if_true]
+  exact isort_perm _ _
+
+theorem createCV_fields (inp : Input) (v : Nat) :
+    (createCV inp v).v = v ∧ (createCV inp v).power = lastPower inp.stk v ∧
+    (createCV inp v).key = (match inp.ka.find? (·.1 == v) with | some p => p.2 | none => v) := by
+  unfold createCV; exact ⟨rfl, rfl, rfl⟩
+
+/-- **Soundness, key.**  Every member of the computed set is an eligible validator — a bonded
+    candidate that is opted in (or required by Top-N), permitted by allow/deny list and minimum
+    stake — and carries the key it assigned for this consumer or else its provider key. -/
+theorem next_sound (inp : Input) (optin : List Nat) (minP : Nat) :
+    ∀ c ∈ computeNextValidators inp optin minP,
+      c.v ∈ eligible inp optin minP ∧
+      c.key = (match inp.ka.find? (·.1 == c.v) with | some p => p.2 | none => c.v) := by
+  intro c hc
+  unfold computeNextValidators at hc
+  simp only at hc
+  rw [List.mem_filterMap] at hc
+  obtain ⟨s, _, hs⟩ := hc
+  split at hs
+  · rename_i c0 hfind
+    simp only [Option.some.injEq] at hs
+    subst hs
+    have hm := List.mem_of_find?_eq_some hfind
+    obtain ⟨v, hv, rfl⟩ := List.mem_map.mp hm
+    exact ⟨hv, rfl⟩
+  · cases hs
+
+/-- **Power.**  Without a power cap the consumer power of every member equals its provider power. -/
+theorem next_power_uncapped (inp : Input) (optin : List Nat) (minP : Nat) (hcap : inp.ps.powCap = 0) :
+    ∀ c ∈ computeNextValidators inp optin minP, c.power = lastPower inp.stk c.v := by
+  intro c hc
+  unfold computeNextValidators at hc
+  simp only at hc
+  rw [List.mem_filterMap] at hc
+  obtain ⟨s, hsm, hs⟩ := hc
+  -- without a cap, the shaped list is a sub-list of the ranked list, whose entries carry provider power
+  unfold capValidatorsPower at hsm
+  simp only [hcap, Nat.lt_irrefl, decide_false, Bool.false_eq_true, if_false] at hsm
+  have hranked : s ∈ rankByPriority (fun v => inp.prio.contains v)
+      (((eligible inp optin minP).map (createCV inp)).map fun c => ({ id := c.v, power := c.power } : Shaping.CV)) := by
+    unfold capValidatorSet at hsm
+    split at hsm
+    · exact hsm
+    · split at hsm
+      · exact List.mem_of_mem_take hsm
+      · exact hsm
+  have hin := (C04.ranked_perm _ _).mem_iff.mp hranked
+  rw [List.mem_map] at hin
+  obtain ⟨c1, hc1, rfl⟩ := hin
+  obtain ⟨v1, _, rfl⟩ := List.mem_map.mp hc1
+  split at hs
+  · rename_i c0 hfind
+    simp only [Option.some.injEq] at hs
+    subst hs
+    have hk : c0.v = (createCV inp v1).v := by simpa using List.find?_some hfind
+    simp only
+    rw [hk]; rfl
+  · cases hs
+
+/-- **Completeness.**  When no validator-set cap applies (Top-N consumer, or cap 0) every eligible
+    validator is in the computed set. -/
+theorem next_complete (inp : Input) (optin : List Nat) (minP : Nat)
+    (hnocap : inp.ps.setCap = 0 ∨ inp.ps.topN > 0) :
+    ∀ v ∈ eligible inp optin minP, ∃ c ∈ computeNextValidators inp optin minP, c.v = v := by
+  intro v hv
+  unfold computeNextValidators
+  simp only
+  -- the shaped list has the same ids as the eligible list
+  have hcapnoop : capValidatorSet inp.ps.topN inp.ps.setCap
+      (rankByPriority (fun v => inp.prio.contains v)
+        (((eligible inp optin minP).map (createCV inp)).map fun c => ({ id := c.v, power := c.power } : Shaping.CV)))
+      = rankByPriority (fun v => inp.prio.contains v)
+        (((eligible inp optin minP).map (createCV inp)).map fun c => ({ id := c.v, power := c.power } : Shaping.CV)) := by
+    unfold capValidatorSet
+    rcases hnocap with h | h
+    · simp [h]
+    · simp [h]
+  rw [hcapnoop]
+  have hidmem : v ∈ (capValidatorsPower inp.ps.powCap (rankByPriority (fun v => inp.prio.contains v)
+        (((eligible inp optin minP).map (createCV inp)).map fun c => ({ id := c.v, power := c.power } : Shaping.CV)))).map (·.id) := by
+    have hr : v ∈ (rankByPriority (fun v => inp.prio.contains v)
+        (((eligible inp optin minP).map (createCV inp)).map fun c => ({ id := c.v, power := c.power } : Shaping.CV))).map (·.id) := by
+      apply ((C04.ranked_perm _ _).map _).mem_iff.mpr
+      simp only [List.map_map, List.mem_map, Function.comp]
+      exact ⟨v, hv, rfl⟩
+    unfold capValidatorsPower
+    split
+    · exact ((C04.pc_same_ids _ _)).mem_iff.mpr hr
+    · exact hr
+  obtain ⟨s, hs, hsid⟩ := List.mem_map.mp hidmem
+  -- the lookup back into the eligible records succeeds
+  have hfind : ∃ c0, ((eligible inp optin minP).map (createCV inp)).find? (·.v == s.id) = some c0 ∧ c0.v = v := by
+    have hex : ((eligible inp optin minP).map (createCV inp)).any (·.v == s.id) = true := by
+      rw [List.any_eq_true]
+      exact ⟨createCV inp v, List.mem_map.mpr ⟨v, hv, rfl⟩, by simp [hsid, createCV]⟩
+    cases hf : ((eligible inp optin minP).map (createCV inp)).find? (·.v == s.id) with
+    | none =>
+      rw [List.find?_eq_none] at hf
+      rw [List.any_eq_true] at hex
+      obtain ⟨x, hx, hxx⟩ := hex
+      exact absurd hxx (hf x hx)
+    | some c0 =>
+      have : c0.v = s.id := by simpa using List.find?_some hf
+      exact ⟨c0, rfl, by rw [this, hsid]⟩
+  obtain ⟨c0, hc0, hv0⟩ := hfind
+  refine ⟨{ c0 with power := s.power }, ?_, hv0⟩
+  rw [List.mem_filterMap]
+  exact ⟨s, hs, by simp [hc0]⟩
+
+/-! ### non-vacuity: the F1 situation — equal power, different tokens, M = 1 -/
+example :
+    let inp : Input := {
+      stk := [{ id := 0, tokens := 5100000, status := 3, jailed := false, lastPower := 5 },
+              { id := 1, tokens := 5900000, status := 3, jailed := false, lastPower := 5 }],
+      bonded := [0, 1], m := 1, height := 7, ps := {}, allow := [], deny := [], prio := [],
+      optin := [0, 1], ka := [(1, 40)], current := [] }
+    candidates inp = [0] ∧
+    computeNextValidators inp inp.optin 0 = [{ v := 0, key := 0, power := 5, join := 7 }] := by decide
 
 end ICS.Props.C02
